@@ -348,6 +348,13 @@ def check_modifiers(ctx, cfg):
         return t["k"] == "adt" and t["adt"].endswith("::HandshakeModifier")
     ms = [e for e in hir.walk(tf_body["hir"]["value"]) if e.get("k") == "match" and e.get("scrut_t") is not None
           and is_mod(e["scrut_t"])]
+    if not ms:
+        # the modifier loop may live in a helper of the same module
+        mod = tf_body["span"]["f"]
+        for p2, b2 in F.bodies.items():
+            if "hir" in b2 and b2.get("span", {}).get("f") == mod and b2 is not tf_body and b2.get("kind") in ("Fn", "AssocFn"):
+                ms += [e for e in hir.walk(b2["hir"]["value"]) if e.get("k") == "match" and e.get("scrut_t") is not None and is_mod(e["scrut_t"])
+                       and any(x.get("k") == "call" and (hir.res_def(x["f"]) or "").endswith("apply_psk_modifier") for x in hir.walk(e))]
     if len(ms) != 1:
         ctx.inconcl("modifier match in try_from not found uniquely (%d)" % len(ms))
         return
@@ -371,24 +378,23 @@ def check_modifiers(ctx, cfg):
     fn = F.one_fn("params::patterns::apply_psk_modifier")
     G = ctx.guards(cfg, fn)
     R = G.R
-    # get_mut(index) -> ok_or(Err(Pattern(InvalidPsk))) -> ?
+    # message = patterns.2.get_mut(saturating_sub(usize::from(n), 1)); None => Err(Pattern(InvalidPsk))
+    from .common import tested_on_path
     okv = None
     idx_ok = False
-    for (b, t) in fn.calls():
-        d = t["callee"].get("def") or ""
-        if d.endswith("Option::<T>::ok_or"):
-            e = strip_bb(R.op(t["args"][1]))
-            okv = err_variant(e)
-            src = strip_bb(R.op(t["args"][0]))
-            if src[0] == "call" and (src[1] or "").endswith("get_mut"):
-                i = src[3][1]
-                # saturating_sub(usize::from(n), 1)
-                if i[0] == "call" and (i[1] or "").endswith("saturating_sub") and i[3][1] == ("const", 1):
-                    inner = i[3][0]
-                    if inner[0] == "call" and inner[3] and inner[3][0] == ("arg", 2):
-                        idx_ok = True
-                    if inner[0] == "cast" and inner[1] == ("arg", 2):
-                        idx_ok = True
+    gm = [(b, t) for (b, t) in fn.calls() if (t["callee"].get("def") or "").endswith("get_mut") and len(t["args"]) == 2]
+    if len(gm) == 1:
+        gb, gt = gm[0]
+        i = strip_bb(R.op(gt["args"][1]))
+        if i[0] == "call" and (i[1] or "").endswith("saturating_sub") and i[3][1] == ("const", 1):
+            inner = i[3][0]
+            if inner[0] == "call" and inner[3] and inner[3][0] == ("arg", 2):
+                idx_ok = True
+            if inner[0] == "cast" and inner[1] == ("arg", 2):
+                idx_ok = True
+        for (eb, v, st) in ret_err_sites(fn, R):
+            if tested_on_path(fn, G, R, eb, gb):
+                okv = v if okv in (None, v) else ("?",)
     ok = okv == ("Pattern", "InvalidPsk") and idx_ok
     ctx.ob("modifier-handling", "apply_psk_modifier:bounds", ok,
            "psk index beyond the message count returns Pattern(InvalidPsk)" if ok else "psk index selection/bounds error not as specified (error %s, index form ok=%s)" % (okv, idx_ok),
